@@ -120,7 +120,7 @@ BUDGET = {  # (leaves, two-leaf formulas, size-3 formulas, calls per formula, st
     ("thorough", "F3obj"): (None, 100, 50, 5, 64),
     ("thorough", "F2clash"): (None, 150, 60, None, 64),
     ("thorough", "F2const"): (None, None, 100, None, 64),
-    ("quick", "F2const"): (10, 20, 8, 2, 32),
+    ("quick", "F2const"): (8, 12, 4, 2, 32),
     ("quick", "F2"): (10, 30, 12, 2, 32),
     ("quick", "F3const"): (8, 14, 6, 2, 32),
     ("quick", "F2clash"): (8, 14, 6, 2, 32),
@@ -281,7 +281,8 @@ def corpus_worlds():
             continue
         out.append({"domain_text": w["domain_text"], "objects": w.get("objects", []), "oof": w.get("oof", False),
                     "oof_kind": w.get("oof_kind"), "probes": w.get("probes", []), "features": ["corpus:" + f["id"]],
-                    "witness_of": f["id"] if f.get("status") == "open" else None, "tree": None})
+                    "witness_of": f["id"] if f.get("status") == "open" else None, "tree": None,
+                    "keyed": bool(w.get("keyed"))})
     return out
 
 
@@ -419,13 +420,79 @@ def build_alias_b(rng, n_states, calls_per_action):
             "features": sorted(aw.features), "tree": aw.domain_tree("dom")}
 
 
+def gen_keyed_world(rng, n_states=2, calls=6):
+    """round 3 (requests/C02.md R2, finding D07): a function of arity 3 (and one of arity 2) applied to distinct parameters /
+    constants in comparisons of the precondition; calls over a 2-3 element universe of one type, so that most calls repeat an object;
+    states give every ground fluent its own random value.  The library keys a grounded fluent by its name and the FIRST OCCURRENCES
+    of its arguments: with repeated objects different fluents of arity 3 share a key."""
+    w = G.World()
+    G.gen_types(rng, w, max_types=2)
+    G.gen_vocab(rng, w)
+    ts = w.all_types()
+    T = rng.choice(ts)
+    subs = [t for t in ts if w.is_sub(t, T)]
+    a = G.gen_action(rng, w, 0)                          # before k3 / g2 exist: the base action does not use them
+    w.funcs.append(("k3", [("?a%d" % i, T) for i in range(3)]))
+    w.funcs.append(("g2", [("?a0", T), ("?a1", T)]))
+    a["eff"] = ["and"] + [e for e in a["eff"][1:] if not (isinstance(e, list) and e and e[0] in ("when", "forall"))]
+    extra = [("?v%d" % i, rng.choice(subs)) for i in range(3)]
+    a["params"] = a["params"] + extra
+    vs = [v for v, _ in extra] + [c for c, t in w.consts if w.is_sub(t, T)]
+
+    def app(f, n):
+        return [f] + rng.sample(vs, n)
+    conds = []
+    for _ in range(rng.randint(1, 3)):
+        kind = rng.randrange(4)
+        op = rng.choice([">=", "<=", "<", ">"])
+        if kind == 0:
+            conds.append([op, app("k3", 3), rng.choice(["1", "2", "3"])])
+        elif kind == 1:
+            conds.append([op, app("g2", 2), app("k3", 3)])
+        elif kind == 2:
+            conds.append([op, ["+", app("k3", 3), app("k3", 3)], rng.choice(["2", "4"])])
+        else:
+            conds.append(["or", [op, app("k3", 3), "2"], [rng.choice([">=", "<"]), app("g2", 2), "1"]])
+    pre = a["pre"] if rng.random() < 0.4 else ["and"]
+    if not (isinstance(pre, list) and pre and pre[0] == "and"):
+        pre = ["and"] + ([pre] if pre else [])
+    a["pre"] = pre + conds
+    w.actions.append(a)
+    w.features.add("function-of-arity-3")
+    objs = [("o%d" % i, rng.choice(subs)) for i in range(2)] + ([("o2", rng.choice(ts))] if rng.random() < 0.4 else [])
+    text = G.render(w.domain_tree("dom"), rng, True)
+    universe = list(objs) + list(w.consts)
+    pools = [[o for o, t in universe if w.is_sub(t, pt)] for _, pt in a["params"]]
+    probes = []
+    if all(pools):
+        combos = [list(c) for c in itertools.product(*pools)]
+        rng.shuffle(combos)
+        n3 = len(a["params"]) - 3
+        rep = [c for c in combos if len(set(c[n3:])) < 3]
+        chosen = rep[:max(1, (2 * calls) // 3)]
+        chosen += [c for c in combos if c not in chosen][:calls - len(chosen)]
+        nwhen, nuniv = count_groups(a)
+        for _ in range(n_states):
+            st = G.gen_state(rng, w, objs)
+            st["fluents"] = [(f, args, float(rng.choice([0, 1, 2, 3, 4, 5]))) for f, args, _ in st["fluents"]]
+            rng.shuffle(st["fluents"])
+            ptxt = G.problem_text(w, objs, st, domain="dom")
+            for args in chosen:
+                probes.append({"action": a["name"], "args": args, "state": st, "problem_text": ptxt, "perm_seed": 0,
+                               "nwhen": nwhen, "nuniv": nuniv})
+    return {"domain_text": text, "objects": objs, "oof": False, "oof_kind": None, "probes": probes,
+            "features": sorted(w.features), "tree": w.domain_tree("dom"), "keyed": True}
+
+
 def generated_worlds(rng, tier):
     worlds = []
     for _ in range({"quick": 60, "thorough": 600}[tier]):
         w = gen_world_t(rng, max_actions=2)
         worlds.append(build_world_b(rng, w, n_states=4, calls_per_action=4))
-    for _ in range({"quick": 20, "thorough": 200}[tier]):
+    for _ in range({"quick": 14, "thorough": 150}[tier]):
         worlds.append(build_alias_b(rng, n_states=3, calls_per_action=4))
+    for _ in range({"quick": 8, "thorough": 100}[tier]):
+        worlds.append(gen_keyed_world(rng))
     return worlds
 
 
@@ -515,7 +582,7 @@ def run(args):
             lits, units = [], []
             for wd, res in chunk:
                 lit, u = world_literal(wd, res, STATED_EPS.hex())
-                lits.append("(AW %s)" % lit)
+                lits.append("(%s %s)" % ("AK" if wd.get("keyed") else "AW", lit))
                 units.append(u)
             verdicts = evaluate(lits, units)
             pos = 0
@@ -530,9 +597,11 @@ def run(args):
                             inp = {"world": {kk: (wd[kk] if not (kk == "domain_text" and wd.get("fixture")) else None)
                                              for kk in ("domain_text", "objects", "oof", "oof_kind", "features")},
                                    "hashseed": hs, "implementation": r.get("app", r)}
+                            inp["world"]["keyed"] = bool(wd.get("keyed"))
                             inp["world"]["fixture"] = wd.get("fixture")
                             inp["world"]["probes"] = [pr]
-                            return {"lit": lit, "input": inp, "nontrivial": True, "witness_of": wd.get("witness_of")}
+                            return {"lit": lit, "input": inp, "nontrivial": True, "witness_of": wd.get("witness_of"),
+                                    "klass": "D07" if wd.get("keyed") else None}
                         nontrivial = (connectives(wd["domain_text"]) >= 2 or bool(wd.get("fixture"))) and len(pr["state"]["facts"]) > 0
                         record(mk, ch, nontrivial, [wd["domain_text"], pr["action"], pr["args"], pr["state"], hs])
                         if acc["sample"] is None:
@@ -632,10 +701,17 @@ def run(args):
         "(pddlgen) x 4 states (every other one with its fluents moved next to a numeral the domains compare with, at the same distances) x <=4 type-correct calls per action; corpus: witnesses of the C02 findings; fixtures: shipped "
         "domain/problem pairs under <repo>/tests (6 of 17 in quick, all in thorough), calls over the problem's objects (half of them applicable "
         "in the initial state), evaluated in the initial state and in perturbed copies of it.  "
+        "Round 3: scope family F2const (universe = object o1 - t + constant k - u; thorough: all leaves and two-leaf formulas, like F2); two forall "
+        "leaves whose variable is named like the parameter ?y; in the generated worlds 70% of the universal conditions bind a name that is also a (new) "
+        "parameter of the action, a quarter of the actions get one more universal conjunct, and 75% of the worlds with a quantifier but no admissible "
+        "constant get a constant of a quantified type (D30; feature constant-of-quantified-type); worlds in which two different schema literals ground to "
+        "the same atom (C20's alias worlds, with states); worlds with a function of arity 3 and one of arity 2 in comparisons, calls with repeated objects, "
+        "every ground fluent with its own value -- judged against the library's name-keyed view of the state (Model.KeyedState), spec failures there are the "
+        "open finding D07.  "
         "A probe is non-trivial when its formula has >= 2 connectives and (scope) the run contains both a true and a false "
         "instance of that formula / (worlds) the state has facts; distinct by input hash.")
     cov["samples"] = [m["formula"] for j in jobs[:2] for m in j["meta"][:2]] + [acc["sample"]]
     rep.assumptions = ["fluent magnitudes below 1e4 (C12 covers the tolerance boundary and infinities)", "ASCII text",
                        "states define every fluent the action reads",
-                       "functions of arity <= 1 (for arity >= 3 with repeated objects the library's name-keyed fluent keys collide: D07)"]
+                       "for functions of arity >= 3 called with repeated objects the library's name-keyed fluent keys collide (open finding D07; generated and classified)"]
     return rep.finish()
